@@ -85,6 +85,8 @@ type sdFam struct {
 
 func init() { families["sd"] = func() Family { return &sdFam{} } }
 
+func (f *sdFam) Reseed(r *rand.Rand) { f.rng = r }
+
 func geti0(m M, k string, def int64) int64 {
 	if _, ok := m[k]; !ok {
 		return def
